@@ -109,6 +109,8 @@ class Evaluator:
             return -v
         if isinstance(e.op, ast.UAdd):
             return +v
+        if isinstance(e.op, ast.Invert):
+            return ~v
         raise Unknown("unary op")
 
     def _e_BinOp(self, e):
@@ -129,6 +131,10 @@ class Evaluator:
                 return l // r
             if isinstance(e.op, ast.Mod):
                 return l % r
+            if isinstance(e.op, ast.BitOr):
+                return l | r
+            if isinstance(e.op, ast.BitAnd):
+                return l & r
         except ZeroDivisionError:
             raise EvalRaise("ZeroDivisionError", e)
         except TypeError:
@@ -187,6 +193,10 @@ class Evaluator:
                         raise Unknown("comparison operator")
                 except TypeError:
                     raise EvalRaise("TypeError", e)
+            if getattr(res, "_absint_elementwise", False):
+                if len(e.ops) != 1:
+                    raise Unknown("chained comparison on an elementwise value")
+                return res
             if not res:
                 return False
             left = right
@@ -228,19 +238,30 @@ class Evaluator:
         except TypeError:
             raise Unknown("subscript on unsupported value")
 
+    def _e_Slice(self, e):
+        parts = [self.eval(x) if x is not None else None for x in (e.lower, e.upper, e.step)]
+        if any(isinstance(x, Opaque) for x in parts):
+            return Opaque("slice")
+        return slice(*parts)
+
     def _e_JoinedStr(self, e):
-        parts = []
+        parts: Optional[List[str]] = []
         for v in e.values:
             if isinstance(v, ast.Constant):
-                parts.append(str(v.value))
-            elif isinstance(v, ast.FormattedValue) and v.conversion == -1 and v.format_spec is None:
-                x = self.eval(v.value)
-                if isinstance(x, Opaque) or not isinstance(x, (str, int, float, bool, type(None))):
-                    return Opaque("fstring")
+                if parts is not None:
+                    parts.append(str(v.value))
+                continue
+            plain = isinstance(v, ast.FormattedValue) and v.conversion == -1 and v.format_spec is None
+            try:
+                # embedded expressions are evaluated even when the text is not needed: they may raise
+                x = self.eval(v.value) if isinstance(v, ast.FormattedValue) else Opaque("fstring")
+            except Unknown:
+                x = Opaque("fstring")
+            if not plain or isinstance(x, Opaque) or not isinstance(x, (str, int, float, bool, type(None))):
+                parts = None
+            elif parts is not None:
                 parts.append(str(x))
-            else:
-                return Opaque("fstring")
-        return "".join(parts)
+        return Opaque("fstring") if parts is None else "".join(parts)
 
     # comprehensions over concrete (finite) iterables
     def _comp(self, generators, emit):
@@ -333,6 +354,10 @@ class Evaluator:
                     return {"list": list, "tuple": tuple, "set": set, "dict": dict, "OrderedDict": dict}[f.id](*args)
                 if f.id == "str":
                     return str(args[0])
+                if f.id == "zip":
+                    return list(zip(*args))
+                if f.id == "enumerate":
+                    return list(enumerate(*args))
             except (TypeError, ValueError):
                 raise Unknown(f"call {f.id} on unsupported values")
         if isinstance(f, ast.Attribute) and isinstance(f.value, ast.Name) and f.value.id == "math" and f.attr == "isinf":
